@@ -210,6 +210,12 @@ Fault gen_store_fault(Rng &r, const FontImage &fi) {
         f.kind = "SETBYTES"; f.a = {4, i64(hdr >> 24), 5, i64((hdr >> 16) & 0xFF), 6, i64((hdr >> 8) & 0xFF), 7, i64(hdr & 0xFF)};
         return f;
     }
+    if (f.tag == "name" && t.size() >= 18 && r.chance(1, 5)) {
+        // a label whose string is empty: the record is there, its length is 0 (the query succeeds with an empty string, or fails - and keeps nothing)
+        unsigned cnt = be16(&t[2]); std::vector<size_t> cand;
+        for (unsigned i = 0; i < cnt && 6 + 12 * size_t(i) + 12 <= t.size(); ++i) if (be16(&t[6 + 12 * i + 6]) >= 256) cand.push_back(6 + 12 * size_t(i) + 8);
+        if (!cand.empty()) { f.kind = "SETBYTES"; bool all = r.chance(1, 2); size_t one = cand[r.below(u32(cand.size()))]; for (size_t pos : cand) if (all || pos == one) { f.a.push_back(i64(pos)); f.a.push_back(0); f.a.push_back(i64(pos + 1)); f.a.push_back(0); } f.nth = -1; return f; }
+    }
     if (f.tag == "name" && t.size() >= 18 && r.chance(1, 3)) {
         // one label's last UTF-16 unit becomes a lead surrogate: the string no longer validates, the label query must fail cleanly
         unsigned cnt = be16(&t[2]); size_t so = be16(&t[4]); std::vector<size_t> cand;
